@@ -384,6 +384,7 @@ fn main() {
                 let mut seen = c01::Seen::default();
                 move |seed, fin: Option<&mut Report>| -> Verdict {
                     if let Some(rep) = fin {
+                        rep.add("obs_servers_built_with_bind", seen.servers_built_with_bind);
                         rep.add("obs_connections", seen.connections);
                         rep.add("obs_served", seen.served);
                         rep.add("obs_unserved_closed_at_shutdown", seen.unserved_closed_at_shutdown);
